@@ -285,6 +285,15 @@ def make_mesh(rng, cls, d, kind):
             shp = [(16, 16), (8, 32), (32, 8), (64, 4), (4, 64), (15, 17), (17, 15), (16, 16), (16, 16)][rng.integers(0, 9)]     # a few hundred vertices (index types have their limits at 256)
         base = ms.TriMesh.init_2d_grid(shp, spacing=float(rng.uniform(0.5, 3)) if rng.random() < 0.5 else None)
         pts, tl = base.points.copy(), base.trilist.copy()        # the triangle list exactly as the grid constructor hands it out
+        if rng.random() < 0.06:
+            # a large surface (more than 512 triangles) with a fin: one extra triangle standing on an interior edge, which three
+            # triangles then share
+            big = ms.TriMesh.init_2d_grid((int(rng.integers(17, 24)), int(rng.integers(17, 24))))
+            pts, tl = big.points.copy(), big.trilist.copy()
+            t0 = tl[int(rng.integers(len(tl) // 3, 2 * len(tl) // 3))]
+            far_ = int(rng.integers(0, len(pts)))
+            if far_ not in t0:
+                tl = np.vstack([tl, np.array([[t0[0], t0[1], far_]], dtype=tl.dtype)])
         if d == 3:
             pts = np.hstack([pts, rng.uniform(-2, 2, (len(pts), 1))])
     elif kind == "sparse_large":
